@@ -1,5 +1,6 @@
 // C01-C05 wrapper: frg::slab_pool over a tiny admissible policy family (DESIGN 4 "C01-C05")
 //   -DVP_POLICY=1 aligned map(len, align)      2 unaligned map(len) only       3 aligned + poison hooks
+//              4 aligned, page size == superblock size == slab size (512): large blocks then start exactly on a superblock boundary
 #include <stdint.h>
 #include <stddef.h>
 #include <string.h>
@@ -20,7 +21,11 @@ void vp_mutex_unlock(void *m);
 struct Policy {
 	static constexpr size_t sb_size = 512;
 	static constexpr size_t slabsize = 512;
+#if VP_POLICY == 4
+	static constexpr size_t pagesize = 512;
+#else
 	static constexpr size_t pagesize = 64;
+#endif
 	static constexpr size_t num_buckets = 4;
 #if VP_POLICY == 2
 	uintptr_t map(size_t len) { return vp_map(len, 0); }
